@@ -153,6 +153,14 @@ fn tail_rec_param_name(name: &str) -> String {
   format!("_tailrec_param_{name}")
 }
 
+/// Whether `name` is the context parameter `_this` of a function, under the name it has either
+/// before or after the rewrite below. The later lowerings give such functions the type-erased
+/// signature that indirect calls expect.
+pub(super) fn is_context_parameter(heap: &Heap, name: PStr) -> bool {
+  name == PStr::UNDERSCORE_THIS
+    || name.as_str(heap) == tail_rec_param_name(PStr::UNDERSCORE_THIS.as_str(heap))
+}
+
 fn optimize_function_by_tailrec_rewrite_aux(
   heap: &mut Heap,
   function: Function,
